@@ -208,8 +208,43 @@ func (x *Exec) libCall(st *State, q string, recv *Value, args []*Value, sig *typ
 	case q == "time.Time.Unix":
 		return []*Value{scalarV(res(0), x.b.SDiv(recv.scalar(), x.b.Num(big.NewInt(1000000000), recv.scalar().Sort)))}, true
 	case q == "time.Unix" || q == "time.UnixMilli":
+		// times are nanoseconds since the epoch: Unix(sec, nsec) = sec*1e9 + nsec and
+		// UnixMilli(ms) = ms*1e6 when that fits 64 bits, unspecified otherwise
 		r := x.b.Fresh("tunix", x.intSort(64))
+		a := args[0].scalar()
+		if a.Sort.Kind == SBV && a.Sort.Width == 64 {
+			mul := int64(1000000000)
+			if q == "time.UnixMilli" {
+				mul = 1000000
+			}
+			w := x.b.Mul(x.b.SExt(a, 64), x.b.Num(big.NewInt(mul), x.intSort(128)))
+			if q == "time.Unix" && len(args) > 1 {
+				w = x.b.Add(w, x.b.SExt(args[1].scalar(), 64))
+			}
+			fits := x.b.Eq(x.b.SExt(x.b.Extract(w, 63, 0), 64), w)
+			x.assume(st, x.b.Implies(fits, x.b.Eq(r, x.b.Extract(w, 63, 0))))
+		} else if a.Sort.Kind != SBV {
+			mul := int64(1000000000)
+			if q == "time.UnixMilli" {
+				mul = 1000000
+			}
+			v := x.b.Mul(a, x.b.Num(big.NewInt(mul), a.Sort))
+			if q == "time.Unix" && len(args) > 1 {
+				v = x.b.Add(v, args[1].scalar())
+			}
+			x.assume(st, x.b.Eq(r, v))
+		}
 		return []*Value{scalarV(res(0), r)}, true
+	case q == "time.Time.Nanosecond":
+		// the part of the time below one second (times are non-negative here)
+		t := recv.scalar()
+		r := x.b.Fresh("tnsec", is)
+		bn := x.b.Num(big.NewInt(1000000000), is)
+		x.assume(st, x.b.And(x.b.Le(x.b.Num(big.NewInt(0), is), r, true), x.b.Lt(r, bn, true)))
+		if t.Sort == is {
+			x.assume(st, x.b.Implies(x.b.Le(x.b.Num(big.NewInt(0), is), t, true), x.b.Eq(r, x.b.SRem(t, bn))))
+		}
+		return []*Value{scalarV(intT, r)}, true
 	case q == "time.Time.IsZero":
 		return []*Value{scalarV(boolT, x.b.App("time.iszero", BoolSort, recv.scalar()))}, true
 	case q == "math/rand.Intn" || q == "math/rand.Int63n" || q == "math/rand.Int31n":
